@@ -829,7 +829,7 @@ func (t *AwaitTxConfirmationAction) Execute(services *SwapServices, swap *SwapDa
 
 	if swap.GetChain() == btc_chain {
 		safetyLimit := validator.GetCSVHeight() / 2
-		if finalCLTVDelta > int64(safetyLimit) {
+		if finalCLTVDelta < 0 || finalCLTVDelta >= int64(safetyLimit) {
 			return swap.HandleError(fmt.Errorf(
 				"unsafe invoice cltv: %d, expected below: %d",
 				finalCLTVDelta, safetyLimit,
